@@ -278,6 +278,7 @@ static void run_table(Shared &S, MT &m, const std::vector<Row> &rows, bool has_e
     lists.push_back({"[i,N] (contains an index beyond the positions)", {i0, static_cast<ndsize_t>(N)}});
     for (size_t li = 0; li < lists.size(); li++) {
         for (int mi = 0; mi < 2; mi++) {
+            if (N == 8 && mi != static_cast<int>((k + static_cast<long>(li)) % 2)) continue; // large tables: the modes alternate from list to list
             RangeMatch mm = MODES[mi];
             std::string exc, what;
             std::vector<ndsize_t> req = lists[li].v; // the library takes the list by non-const reference
@@ -354,7 +355,7 @@ static void make_rows(const Built &ref, size_t cols, Level lv, std::vector<Row> 
 static size_t gcd(size_t a, size_t b) { while (b) { size_t t = a % b; a = b; b = t; } return a; }
 
 // lay the rows out into tables whose sizes rotate through PATTERN starting at `phase`
-static void run_rows(Shared &S, std::map<size_t, MT> &mts, const std::vector<Row> &rows, bool has_ext, size_t phase, long &k) {
+static void run_rows(std::map<size_t, Shared> &shared, std::map<size_t, MT> &mts, const std::vector<Row> &rows, bool has_ext, size_t phase, long &k) {
     const size_t M = rows.size();
     size_t g = static_cast<size_t>(static_cast<double>(M) * 0.618) | 1; // permutation j -> j*g mod M: neighbours in a table are far apart in the product
     while (gcd(g, M) != 1) g += 2;
@@ -364,7 +365,7 @@ static void run_rows(Shared &S, std::map<size_t, MT> &mts, const std::vector<Row
         std::vector<Row> table;
         for (size_t q = 0; q < N; q++) table.push_back(rows[((j + q) % M) * g % M]);
         j += N; t++;
-        run_table(S, mts.at(N), table, has_ext, k++);
+        run_table(shared.at(N), mts.at(N), table, has_ext, k++);
         if (vf::deadline_hit()) return;
     }
 }
@@ -373,7 +374,7 @@ int main(int argc, char **argv) {
     vf::init(argc, argv, "C06");
     vf::set_clock(1500000000);
     const bool thorough = vf::opt.tier == "thorough";
-    std::vector<Config> cfgs = configurations(thorough, 7, 2);
+    std::vector<Config> cfgs = configurations(thorough, 7, 1);
     long idx = 0;
     int samples = 0;
     for (const Config &cfg : cfgs) {
@@ -381,14 +382,6 @@ int main(int argc, char **argv) {
         if (!vf::take_case(ci)) continue;
         const size_t r = cfg.specs.size();
         vf::case_desc(cfg.label + ": " + specs_name(cfg.specs));
-        File f = File::open(vf::scratch_file("c06.h5"), FileMode::Overwrite);
-        Shared S;
-        S.block = f.createBlock("b", "t");
-        S.ref = build_array(S.block, "ref", cfg.specs, 0.0, P);
-        S.ft = build_array(S.block, "ft", tagged_feature_specs(cfg.specs), 1000.0, P);
-        std::vector<AxisSpec> us = {{SET, 0, 2}, {SAMPLED, 0, 3}};
-        S.fu = build_array(S.block, "fu", us, 5000.0, P);
-        if (!S.ref.ok || !S.ft.ok || !S.fu.ok) { f.close(); continue; }
         vf::count("cases_rank" + std::to_string(r));
         // the positions-array layouts of this case: (columns, level)
         std::vector<std::pair<size_t, Level>> layouts;
@@ -396,36 +389,54 @@ int main(int argc, char **argv) {
         else if (r == 2) { layouts.push_back({2, REDUCED}); layouts.push_back({1, REDUCED}); layouts.push_back({3, MINI}); }
         else { layouts.push_back({3, MINI}); layouts.push_back({2, MINI}); layouts.push_back({1, REDUCED}); layouts.push_back({4, TINY}); }
         long k = 0, rows_total = 0;
+        std::vector<double> axis0;
         for (size_t li = 0; li < layouts.size() && !vf::deadline_hit(); li++) {
             size_t cols = layouts[li].first;
+            // One file per layout and one block per table size, each with its own copy of the arrays: every HDF5 group
+            // stays small (<= 8 links, "compact" storage).  With all multi-tags in one block the data_arrays group turns
+            // into a "dense" group, and HDF5 1.10.8 then fails sporadically inside H5Oget_info (H5FS_open: "Read only
+            // entry modified??"), which has nothing to do with the property.
+            File f = File::open(vf::scratch_file("c06.h5"), FileMode::Overwrite);
+            std::map<size_t, Shared> shared;
             std::map<size_t, MT> mts;
-            bool ok = true;
+            bool ok = true, built = true;
             for (size_t N : NS) {
+                Shared &S = shared[N];
+                S.block = f.createBlock("b" + std::to_string(N), "t");
+                S.ref = build_array(S.block, "ref", cfg.specs, 0.0, P);
+                S.ft = build_array(S.block, "ft", tagged_feature_specs(cfg.specs), 1000.0, P);
+                std::vector<AxisSpec> us = {{SET, 0, 2}, {SAMPLED, 0, 3}};
+                S.fu = build_array(S.block, "fu", us, 5000.0, P);
+                if (!S.ref.ok || !S.ft.ok || !S.fu.ok) { built = false; break; }
                 mts[N] = make_mt(S, N, cols, "_c" + std::to_string(cols) + "_n" + std::to_string(N));
                 const MT &m = mts[N];
                 if (m.idx_t == 99 || m.idx_u == 99 || m.idx_iN == 99 || (m.has_fiN1 && m.idx_iN1 == 99) || !m.fiN.ok) ok = false;
             }
-            if (!ok) { vf::violation(P + "|setup|features not listed by index", specs_name(cfg.specs)); continue; }
+            if (!built) { f.close(); break; }
+            if (!ok) { vf::violation(P + "|setup|features not listed by index", specs_name(cfg.specs)); f.close(); continue; }
+            const Built &ref = shared.at(NS[0]).ref; // the same axes in every block
+            axis0 = ref.axes[0].c;
             std::vector<Row> rows_p, rows_pe;
-            make_rows(S.ref, cols, layouts[li].second, rows_p, rows_pe);
+            make_rows(ref, cols, layouts[li].second, rows_p, rows_pe);
             rows_total += static_cast<long>(rows_p.size() + rows_pe.size());
             const size_t width = cols == 0 ? 1 : cols;
             vf::count(width < r ? "layouts_fewer_columns" : width == r ? "layouts_equal_columns" : "layouts_more_columns");
-            run_rows(S, mts, rows_p, false, 0, k);
-            run_rows(S, mts, rows_pe, true, 0, k);
+            run_rows(shared, mts, rows_p, false, 0, k);
+            run_rows(shared, mts, rows_pe, true, 0, k);
             if (thorough && li == 0 && r == 1) {
                 // second pass over the main layout with the table sizes shifted: every row also sits in a table of another size
-                run_rows(S, mts, rows_p, false, 3, k);
-                run_rows(S, mts, rows_pe, true, 3, k);
+                run_rows(shared, mts, rows_p, false, 3, k);
+                run_rows(shared, mts, rows_pe, true, 3, k);
             }
+            mts.clear(); shared.clear();
+            f.close();
         }
         if (samples < 3 && (ci % 16 == vf::opt.shard % 16 || vf::opt.only >= 0)) {
             samples++;
             vf::sample("{\"case\":" + std::to_string(ci) + ",\"array\":" + vf::jstr(specs_name(cfg.specs)) + ",\"tagged_feature_array\":" +
                        vf::jstr(specs_name(tagged_feature_specs(cfg.specs))) + ",\"rows\":" + std::to_string(rows_total) + ",\"tables\":" + std::to_string(k) +
-                       ",\"table_sizes\":[8,3,2,1],\"axis0_coordinates\":" + vf::jvecd(S.ref.axes[0].c) + "}");
+                       ",\"table_sizes\":[8,3,2,1],\"axis0_coordinates\":" + vf::jvecd(axis0) + "}");
         }
-        f.close();
         if (vf::deadline_hit()) break;
     }
     vf::note("configurations", std::to_string(cfgs.size()));
